@@ -196,6 +196,12 @@ func outOfRange(tkind types.BasicKind, cval constant.Value) bool {
 	if cval == nil {
 		return false
 	}
+	if cval.Kind() == constant.Complex { // constant.Compare orders real values only
+		if constant.Sign(constant.Imag(cval)) != 0 {
+			return true // not representable as an integer
+		}
+		cval = constant.Real(cval)
+	}
 	rg := tkindRanges[tkind]
 	return constant.Compare(cval, token.LSS, rg[0]) || constant.Compare(cval, token.GTR, rg[1])
 }
